@@ -17,7 +17,13 @@ use crate::prelude::{
 use crate::prelude::{DynamicCodeRead, DynamicCodeWrite, StaticCodeRead, StaticCodeWrite};
 use anyhow::Result;
 use core::fmt::Debug;
+#[cfg(not(dsi_bitstream_verif_shuttle))]
 use std::sync::Mutex;
+// Verification hook (off by default): with `--cfg dsi_bitstream_verif_shuttle`
+// the lock is the one of the shuttle scheduler, so that lock acquisition
+// becomes a scheduling point of the deterministic simulator in /verif.
+#[cfg(dsi_bitstream_verif_shuttle)]
+use shuttle::sync::Mutex;
 
 /// Keeps track of the space needed to store a stream of integers using
 /// different codes.
